@@ -183,9 +183,11 @@ Take(act, outs) ==
   /\ EmitT(act, outs)
 
 \* same, for calls that take a failing-request index f (last element of act) and whose no-failure outcome is ok
+\* C08: under a refused request a call "either completes normally or reports failure": the undisturbed outcome is admitted as well (a call that does not
+\* make the refused request at all - it found it could do without the copy - completes normally); the driver counts a match with it as drift
 TakeF(act, f, outs, ok) ==
   /\ Assert(FailClean(f, outs[1], ok[1]), <<"C08 unclean failure", act>>)
-  /\ Take(act, outs)
+  /\ Take(act, IF f = 0 \/ \E k \in DOMAIN outs : outs[k] = ok[1] THEN outs ELSE Append(outs, ok[1]))
 
 (***************************************************************************)
 (* Next: one public call                                                    *)
